@@ -31,3 +31,6 @@ size_t verif_ctl_window_write(unsigned char* buffer, size_t buffer_size) {
   }
   return 0;
 }
+
+/* *.signed-compare: two sizes compared as signed quantities */
+int verif_ctl_signed_compare(size_t needed, size_t available) { return (long)needed > (long)available; }
